@@ -160,6 +160,9 @@ def run(ctx, model=None):
         if k % 2 == 0:
             check_case(ctx, gen.tiny_best_game(rng), model)
             check_case(ctx, gen.big_slow_reward_game(rng), model, limit=60.0)
+    import analysis as _an0
+    _an0.optimized_interpreter(ctx, [gen.layered_tie_game(rng) for _ in range(6)] + [gen.stopping_game(rng, dead_frac=0.5) for _ in range(6)],
+                               "exact-optimal-set", fields=[0, 1])
     N = 200 if ctx.quick() else 5000
     for k in range(N):
         r = k % 5
